@@ -17,6 +17,7 @@ INVARIANT Chains
 INVARIANT DiagIsDiagonal
 INVARIANT StackRows
 INVARIANT AggIsWJ
+INVARIANT ValuesLinear
 INVARIANT ExportCall
 INVARIANT ExportVal
 INVARIANT ExportMenu
